@@ -56,13 +56,23 @@ def scalar(ctx):
         bad, n = None, 0
         try:
             for w in WIDTHS:
-                for k in range(w + 1):
+                # the offset as a python integer and as a signal-shaped value of every width that can hold it (the result
+                # must not depend on how wide the offset signal is); the operand unsigned and signed
+                variants = [(k, rep, sg) for k in range(w + 1) for rep in [None] + list(range(max(1, k.bit_length()), max(1, w.bit_length()) + 2)) for sg in (False, True)]
+                for k, rep, sg in variants:
                     ref = _scalar_ref(name, w, k)
                     n += 1
+                    args = _scalar_args(name, w, k)
+                    if rep is not None:
+                        args = [const_bits(k, rep) if (isinstance(a, int) and not isinstance(a, Bits)) else a for a in args]
+                    if sg:
+                        sv = Bits(args[0])
+                        sv.signed = True
+                        args = [sv] + args[1:]
                     try:
-                        got = ev.call(name, _scalar_args(name, w, k), {})
+                        got = ev.call(name, args, {})
                     except WiringError as e:
-                        bad = f"width {w}, offset {k}: the generator fails: {e}"
+                        bad = f"width {w}, offset {k} ({'int' if rep is None else str(rep) + '-bit signal'}), {'signed' if sg else 'unsigned'} operand: the generator fails: {e}"
                         break
                     if not isinstance(got, Bits) or tuple(got) != tuple(ref):
                         bad = f"width {w}, offset {k}: result bits wired to {list(got) if isinstance(got, Bits) else got!r}, documented {list(ref)}"
